@@ -1,9 +1,15 @@
-(* C16 -- reference definitions act through env.  Proved: what the reference rule does to env on
+(* C16 -- reference definitions act through env.  Proved for a WHOLE parse, every source, env,
+   configuration and core chain (C16_parse_env_extends, C16_block_parse_env_extends): the
+   definitions already in env stay exactly where they are (a prefix of the new list: the first
+   definition of a label wins, across parses too), every new entry is appended under a label that
+   was absent, later definitions of a present label are appended to duplicate_refs, nothing is
+   removed, and every recorded destination is a validated normalizeLink result.  And: what the reference rule does to env on
    EVERY invocation -- failure and silent mode leave it unchanged; a successful call records
    exactly one definition with the map of its own lines, as a new entry iff the label is absent,
    else as a duplicate; nothing is ever overwritten or removed (first definition wins).
    Only statements and [exact]. *)
-From MD Require Import Base.Py Base.Str Base.Opt Model.Token Model.Utils Model.StateBlock Model.Block Lemmas.BlockLemmas.
+From MD Require Import Base.Py Base.Str Base.Opt Model.Token Model.Utils Model.Url Model.StateBlock Model.Block Model.Inline Model.Pipeline
+     Lemmas.BlockLemmas Lemmas.EnvLemmas Lemmas.PipelineUrls.
 
 Theorem C16_reference_env :
   forall cfg rf cf tm st startLine endLine silent b st',
@@ -21,3 +27,26 @@ Theorem C16_reference_env :
                /\ e_dups (b_env st') = Some (env_dups (b_env st) ++ [(label, rec)])))).
 Proof. exact reference_env. Qed.
 Print Assumptions C16_reference_env.
+
+(* what env_ext says (for reading the theorems below) *)
+Definition C16_env_ext_means :
+  forall rf e e', env_ext rf e e' <->
+    exists added dups,
+      env_refs e' = env_refs e ++ added /\ env_dups e' = env_dups e ++ dups
+      /\ Forall (good_ref rf) added /\ Forall (good_ref rf) dups
+      /\ Forall (fun lr => alookup (fst lr) (env_refs e) = None) added
+  := fun rf e e' => conj (fun H => H) (fun H => H).
+
+(* the block parser, any nesting, any rule subset *)
+Theorem C16_block_parse_env_extends :
+  forall cfg reformat casefold src env toks st,
+    block_parse cfg reformat casefold src env toks = Ok st -> env_ext reformat env (b_env st).
+Proof. exact block_parse_env. Qed.
+Print Assumptions C16_block_parse_env_extends.
+
+(* MarkdownIt.parse with any core chain *)
+Theorem C16_parse_env_extends :
+  forall cfg reformat casefold linktext src env ts env',
+    parse cfg reformat casefold linktext src env = Ok (ts, env') -> env_ext reformat env env'.
+Proof. exact parse_env_extends. Qed.
+Print Assumptions C16_parse_env_extends.
